@@ -8,7 +8,7 @@ TECHNIQUE = 'runtime monitoring under a deterministic cooperative scheduler with
 RULE = ('2-5 timed sources (some sharing a signal name) on a started ActiveObject; at a virtual instant that coincides with a posting instant of '
         'a source in half of the runs (so canceller and timer thread are runnable together) cancel_event(id) or cancel_events(event) is called '
         'from outside or from inside a handler, with the id / signal-name object either identical to what miros returned or EQUAL BUT NOT '
-        'IDENTICAL (rebuilt by join / encode-decode / JSON round trip, as if received over a network); in 40% of the runs a further thread arms an unrelated timed source at the very instant of the cancel; in a fifth of the runs the object (a subclass with a small QUEUE_SIZE) can track exactly one more source than it already has and TWO threads arm one each just before the cancel of the oldest source: one must be refused and every accepted source must stay cancellable. Checked from the deque operation log: '
+        'IDENTICAL (rebuilt by join / encode-decode / JSON round trip, as if received over a network); in 40% of the runs a further thread arms an unrelated timed source at the very instant of the cancel; in a quarter of the outside runs a SECOND thread makes the same cancelling call at the same instant (the first timer thread that posts from then on is held in the middle of its post by an injected delay): after whichever call returns first the target must be silent; in a fifth of the runs the object (a subclass with a small QUEUE_SIZE) can track exactly one more source than it already has and TWO threads arm one each just before the cancel of the oldest source: one must be refused and every accepted source must stay cancellable. Checked from the deque operation log: '
         'no append of a cancelled source after the step at which the cancel call returned; exactly the targeted sources stop; every other '
         'source has its ideal number of postings at the horizon. distinct_nontrivial = distinct (cancel mode, inside/outside, identical or '
         'rebuilt, coincident instant, context-switch sequence) tuples')
@@ -16,7 +16,7 @@ CASES = {'quick': 1500, 'thorough': 80000}
 BUDGET = {'quick': 150, 'thorough': 300}
 REQUIRE = {'runs': 600, 'cancel_by_id': 200, 'cancel_by_name': 200, 'cancel_from_handler': 150, 'rebuilt_argument': 200, 'cancel_coincides_with_posting': 200,
            'timer_and_canceller_runnable_together': 50, 'source_armed_during_cancel': 200,
-           'runs_under_capacity_pressure': 100, 'capacity_pressure_one_of_two_refused': 80}
+           'runs_under_capacity_pressure': 100, 'overlapping_cancellations': 100, 'capacity_pressure_one_of_two_refused': 80}
 ASSUME = ['instantaneous-computation time model (clock advances only at quiescence)']
 ANNOUNCE_CASES = True
 
@@ -43,6 +43,7 @@ def run_case(ctx, n):
   aosim.install(s)
   run = timersim.TimerRun()
   cancel_rec = {}
+  cancel_rec2 = {}
   try:
     import miros.activeobject as AOM
     base = None
@@ -53,7 +54,7 @@ def run_case(ctx, n):
       ctx.count('runs_under_capacity_pressure')
     ao = aosim.make_ao(run.hist, instrumented=rng.random() < 0.5, base=base)
 
-    def do_cancel(chart):
+    def do_cancel(chart, cancel_rec=cancel_rec):
       if mode == 'id':
         arg = run.ids[target]
         if rebuilt:
@@ -93,11 +94,32 @@ def run_case(ctx, n):
           armers.append(ds.SThread(target=arm))
           armers[-1].start()
         ctx.count('source_armed_during_cancel')
+      # overlapping cancellations (a quarter of the outside runs): a second thread cancels the same target(s) at the same
+      # instant; in most of these runs the first timer thread that posts from then on is held in the middle of its post
+      # (it keeps its per-source lock) by an injected delay, so that both cancelling calls meet a source that is busy
+      double = (not inside) and (not pressure) and rng.random() < 0.25
+      canceller2 = None
+      if double:
+        ctx.count('overlapping_cancellations')
+        if rng.random() < 0.7:
+          s.inject = {'match': lambda me, loc: me.role == 'post_event_thread_runner' and ds.S.clock >= tc - 1e-9 and isinstance(loc, tuple) and loc[0] in ('post_fifo', 'post_lifo', 'append', 'appendleft'),
+                      'visit': rng.randint(1, 6), 'sleep': rng.choice([0.001, 0.004])}
+
+        def cancel_again():
+          ds.STime.sleep(max(0.0, tc - ds.S.clock))
+          do_cancel(ao, cancel_rec2)
+        canceller2 = ds.SThread(target=cancel_again)
+        canceller2.start()
       ds.STime.sleep(max(0.0, tc - s.clock))
       if inside:
         ao.post_fifo(Event(signal='DO', payload=0))
       else:
         do_cancel(ao)
+      if canceller2 is not None:
+        canceller2.join()
+        if 'ret' in cancel_rec2 and 'ret' in cancel_rec and cancel_rec2['ret'] < cancel_rec['ret']:
+          # the cancelling call that returned FIRST is the reference: from then on the target must be silent
+          cancel_rec.update(ret=cancel_rec2['ret'], returned_first='second canceller')
       horizon = s.clock + rng.choice([0.0777, 0.5123, 3.0011])
       ds.STime.sleep(horizon - s.clock)
       for armer in armers:
@@ -168,7 +190,11 @@ def run_case(ctx, n):
         if len([p for p in mine if p[3] < cancel_rec['clock'] - 1e-9]) != len(before):
           ctx.count('other_property_disagreements')
       else:
-        if len(mine) != len(ideal):
+        # a source whose timer thread was held by the harness' own injected delay runs late by that much: it may be short of
+        # its ideal count by the postings that fit into the delay (plus one), never ahead of it
+        inj = s.inject if (s.inject and s.inject.get('done')) else None
+        tol = (int(inj['sleep'] / src['period']) + 1) if (inj and src['period'] > 0) else (1 if inj else 0)
+        if not (len(ideal) - tol <= len(mine) <= len(ideal)):
           ctx.violation('C11/other-source-disturbed', 'source %d was not cancelled (target %d, mode %s) but has %d postings at t=%r instead of %d' % (i, target, mode, len(mine), now, len(ideal)), wit)
           return
     if n < 3:
